@@ -29,12 +29,16 @@
     `cyclic_classes_nonempty`, `cyclic_classes_unique`, `cyclic_classes_aperiodic`, `walk_class_shift`,
     `cyclic_classes_order_independent`
   * sub-graph: `subgraph_edge_iff`; stored zeros: `elimZeros_spec`
+  * constructors / setters (error branches): `checkLabels_ok_iff`, `checkLabels_error`, `dgInit_ok_iff`,
+    `dgInit_notSquare`, `closeToOne_iff`, `mcInit_ok_iff`, `mcInit_error_order`; rejected assignments in
+    histories: `labelsAfter_badSet`, `dg_history_read_after_rejected`, `mc_history_read_after_rejected`
   * histories on one object (label reassignment interleaved with reads): `dg_history_read`,
     `dg_history_readSub`, `dgRead_indices_label_free`, `mc_coherent_after`, `mc_history_read`,
     `mcRead_indices_label_free`, `reportDG_eq_reads`, `reportMC_eq_reads`
 -/
 import Mathlib.Data.List.Basic
 import QEModel.C03
+import Mathlib.Algebra.Order.Field.Rat
 import QEProofs.Lemmas.C03Period
 import QEProofs.Lemmas.C03Reach
 import QEProofs.Lemmas.C03Scc
@@ -1423,6 +1427,7 @@ def labelsAfter (L : Option (List Int)) : List Step → Option (List Int)
   | .setLabels L' :: rest => labelsAfter L' rest
   | .read _ :: rest => labelsAfter L rest
   | .readSub _ :: rest => labelsAfter L rest
+  | .badSet _ :: rest => labelsAfter L rest
 
 theorem dgRun_append (s : DGState) (a b : List Step) :
     dgRun s (a ++ b) = dgRun s a ++ dgRun ⟨s.g, labelsAfter s.labels a⟩ b := by
@@ -1433,6 +1438,7 @@ theorem dgRun_append (s : DGState) (a b : List Step) :
     | setLabels L => simp only [List.cons_append, dgRun, dgStep, labelsAfter]; exact ih _
     | read w => simp only [List.cons_append, dgRun, dgStep, labelsAfter, List.cons.injEq, true_and]; exact ih _
     | readSub nodes => simp only [List.cons_append, dgRun, dgStep, labelsAfter, List.cons.injEq, true_and]; exact ih _
+    | badSet a => simp only [List.cons_append, dgRun, dgStep, labelsAfter, List.cons.injEq, true_and]; exact ih _
 
 /-- **History theorem (`DiGraph`).** Whatever was read or assigned before, a read answers what a
     fresh object with the same graph and the labels assigned last would answer: no read leaves a
@@ -1471,6 +1477,7 @@ theorem mcRun_append (s : MCState) (a b : List Step) :
     | setLabels L => simp only [List.cons_append, mcRun, mcStep, mcStateAfter]; exact ih _
     | read w => simp only [List.cons_append, mcRun, mcStep, mcStateAfter, List.cons.injEq, true_and]; exact ih _
     | readSub nodes => simp only [List.cons_append, mcRun, mcStep, mcStateAfter, List.cons.injEq, true_and]; exact ih _
+    | badSet a => simp only [List.cons_append, mcRun, mcStep, mcStateAfter, List.cons.injEq, true_and]; exact ih _
 
 /-- the object invariant: a built digraph carries the chain's current `state_values` -/
 def MCState.Coherent (s : MCState) : Prop := s.digraph = none ∨ s.digraph = some s.values
@@ -1482,6 +1489,7 @@ theorem mcStep_coherent (s : MCState) (h : s.Coherent) (st : Step) : (mcStep s s
   | read w =>
     rcases h with h | h <;> simp [mcStep, MCState.Coherent, h]
   | readSub nodes => exact h
+  | badSet a => exact h
 
 /-- **T1 (the invariant is kept by every history)**; a fresh chain (`digraph = none`) satisfies it -/
 theorem mc_coherent_after (s : MCState) (h : s.Coherent) (l : List Step) :
@@ -1704,5 +1712,172 @@ theorem reportMC_eq_reads (g : G) (hwf : g.wf = true) (hn : 0 < g.n) (L : Option
 example : reportDG ⟨2, [[1], [0]]⟩ (labeller (some [7, 8])) = "sc=1 nscc=1 nsink=1 scc=7,8 sink=7,8 period=2 aper=0 cyc=7;8" := by decide
 example : reportMC ⟨3, [[1], [0], [0]]⟩ (labeller none) =
     "irr=0 ncomm=2 nrec=1 comm=0,1;2 rec=0,1 period=2 aper=0 cyc=ERR:NotImplementedError" := by decide
+
+/-! ## constructors and label setters: argument validation -/
+
+/-- **T1 (label setter).** An array is accepted as `node_labels` / `state_values` of an object with
+    `n` nodes exactly when it has at least one dimension, first axis of length `n`, and a
+    non-object dtype; the length test is made first. -/
+theorem checkLabels_ok_iff (n : Nat) (a : LabelArg) :
+    checkLabels n (some a) = none ↔ (1 ≤ a.ndim ∧ a.len0 = n ∧ a.isObject = false) := by
+  unfold checkLabels
+  by_cases h1 : a.ndim < 1 ∨ a.len0 ≠ n
+  · simp only [h1, if_true]
+    constructor
+    · intro h; cases h
+    · rintro ⟨h2, h3, _⟩; rcases h1 with h | h <;> omega
+  · simp only [h1, if_false]
+    have h1' : 1 ≤ a.ndim ∧ a.len0 = n := by
+      constructor
+      · by_contra hc; exact h1 (Or.inl (by omega))
+      · by_contra hc; exact h1 (Or.inr hc)
+    cases hob : a.isObject <;> simp [h1']
+
+theorem checkLabels_error (n : Nat) (a : LabelArg) :
+    (checkLabels n (some a) = some .labelsLength ↔ (a.ndim < 1 ∨ a.len0 ≠ n)) ∧
+    (checkLabels n (some a) = some .labelsObject ↔ (¬ (a.ndim < 1 ∨ a.len0 ≠ n) ∧ a.isObject = true)) := by
+  unfold checkLabels
+  simp only
+  by_cases h1 : a.ndim < 1 ∨ a.len0 ≠ n
+  · rw [if_pos h1]
+    exact ⟨⟨fun _ => h1, fun _ => rfl⟩, ⟨fun h => (by cases h), fun h => absurd h1 h.1⟩⟩
+  · rw [if_neg h1]
+    cases hob : a.isObject
+    · simp only [Bool.false_eq_true, if_false]
+      exact ⟨⟨fun h => (by cases h), fun h => absurd h h1⟩, ⟨fun h => (by cases h), fun h => (by cases h.2)⟩⟩
+    · simp only [if_true]
+      exact ⟨⟨fun h => (by cases h), fun h => absurd h h1⟩, ⟨fun _ => ⟨h1, trivial⟩, fun _ => trivial⟩⟩
+
+/-- **T1 (`DiGraph.__init__`).** Construction succeeds exactly for a square matrix with acceptable
+    labels; a non-square matrix is reported before the labels are looked at. -/
+theorem dgInit_ok_iff (m k : Nat) (lab : Option LabelArg) :
+    dgInit m k lab = none ↔ (k = m ∧ checkLabels k lab = none) := by
+  unfold dgInit
+  by_cases h : k = m
+  · simp [h]
+  · simp [h]
+
+theorem dgInit_notSquare (m k : Nat) (lab : Option LabelArg) (h : k ≠ m) :
+    dgInit m k lab = some .notSquare := by
+  unfold dgInit; simp [h]
+
+/-- `np.allclose(s, 1)` with the default tolerances is `|s − 1| ≤ 1.0001e-5` -/
+theorem closeToOne_iff (s : Rat) :
+    closeToOne s = true ↔ (1 - (10001 : Rat) / 1000000000 ≤ s ∧ s ≤ 1 + (10001 : Rat) / 1000000000) := by
+  unfold closeToOne
+  simp only [decide_eq_true_eq]
+  split
+  · rename_i h
+    constructor
+    · intro h2; constructor <;> linarith
+    · rintro ⟨h2, h3⟩; linarith
+  · rename_i h
+    constructor
+    · intro h2; constructor <;> linarith
+    · rintro ⟨h2, h3⟩; linarith
+
+/-- **T1 (`MarkovChain.__init__`).** Construction succeeds exactly when `P` is two-dimensional and
+    square, has no negative entry, every row sum is within the `allclose` tolerance of 1, and the
+    `state_values` are acceptable. -/
+theorem mcInit_ok_iff (shape : List Nat) (P : List (List Rat)) (vals : Option LabelArg) :
+    mcInit shape P vals = none ↔
+      ∃ n, shape = [n, n] ∧ (∀ row, row ∈ P → ∀ x, x ∈ row → 0 ≤ x) ∧
+        (∀ row, row ∈ P → closeToOne (row.foldl (· + ·) 0) = true) ∧ checkLabels n vals = none := by
+  unfold mcInit
+  match shape with
+  | [] => simp
+  | [_] => simp
+  | _ :: _ :: _ :: _ => simp
+  | [m, k] =>
+    simp only
+    by_cases hmk : m = k
+    · subst hmk
+      by_cases hneg : (P.any fun row => row.any fun x => decide (x < 0)) = true
+      · simp only [hneg, ne_eq, not_true_eq_false, if_false, if_true]
+        constructor
+        · intro h; cases h
+        · rintro ⟨n, hn, hnn, _⟩
+          rw [List.any_eq_true] at hneg
+          obtain ⟨row, hrow, hx⟩ := hneg
+          rw [List.any_eq_true] at hx
+          obtain ⟨x, hxm, hxneg⟩ := hx
+          have := hnn row hrow x hxm
+          simp only [decide_eq_true_eq] at hxneg
+          linarith
+      · have hnn : ∀ row, row ∈ P → ∀ x, x ∈ row → 0 ≤ x := by
+          intro row hrow x hx
+          by_contra hc
+          apply hneg
+          rw [List.any_eq_true]
+          exact ⟨row, hrow, List.any_eq_true.2 ⟨x, hx, by simpa using hc⟩⟩
+        by_cases hsum : (P.any fun row => !closeToOne (row.foldl (· + ·) 0)) = true
+        · simp only [hneg, hsum, ne_eq, not_true_eq_false, if_false, if_true, Bool.false_eq_true]
+          constructor
+          · intro h; cases h
+          · rintro ⟨n, _, _, hcl, _⟩
+            rw [List.any_eq_true] at hsum
+            obtain ⟨row, hrow, hx⟩ := hsum
+            rw [hcl row hrow] at hx
+            simp at hx
+        · have hcl : ∀ row, row ∈ P → closeToOne (row.foldl (· + ·) 0) = true := by
+            intro row hrow
+            by_contra hc
+            apply hsum
+            rw [List.any_eq_true]
+            exact ⟨row, hrow, by simpa using hc⟩
+          simp only [hneg, hsum, ne_eq, not_true_eq_false, if_false, Bool.false_eq_true]
+          constructor
+          · intro h; exact ⟨m, rfl, hnn, hcl, h⟩
+          · rintro ⟨n, hn, _, _, hl⟩
+            have : n = m := by simpa using (List.cons.inj hn).1.symm
+            subst this; exact hl
+    · simp only [ne_eq, hmk, not_false_eq_true, if_true]
+      constructor
+      · intro h; cases h
+      · rintro ⟨n, hn, _⟩
+        simp only [List.cons.injEq, and_true] at hn
+        omega
+
+/-- the order of the tests: shape first, then signs, then row sums, then `state_values` -/
+theorem mcInit_error_order (n : Nat) (P : List (List Rat)) (vals : Option LabelArg) :
+    ((P.any fun row => row.any fun x => decide (x < 0)) = true → mcInit [n, n] P vals = some .negative) ∧
+    ((P.any fun row => row.any fun x => decide (x < 0)) = false →
+      (P.any fun row => !closeToOne (row.foldl (· + ·) 0)) = true → mcInit [n, n] P vals = some .rowSums) := by
+  unfold mcInit
+  constructor
+  · intro h; simp [h]
+  · intro h1 h2; simp [h1, h2]
+
+example : mcInit [2, 2] [[1/2, 1/2], [0, 1]] (some ⟨1, 2, false⟩) = none := by decide +kernel
+example : mcInit [2, 2] [[1/2, 1/2], [-1/2, 3/2]] none = some .negative := by decide +kernel
+example : mcInit [2, 2] [[1/2, 1/2], [1/2, 9/16]] none = some .rowSums := by decide +kernel
+example : mcInit [2, 3] [[1/2, 1/2, 0], [0, 1, 0]] none = some .notSquare := by decide +kernel
+example : dgInit 3 3 (some ⟨1, 2, false⟩) = some .labelsLength ∧ dgInit 3 3 (some ⟨1, 3, true⟩) = some .labelsObject
+    ∧ dgInit 3 3 (some ⟨2, 3, false⟩) = none ∧ dgInit 2 3 (some ⟨1, 2, false⟩) = some .notSquare := by decide
+
+/-! a rejected assignment leaves no trace -/
+
+theorem labelsAfter_badSet (L : Option (List Int)) (pre post : List Step) (a : LabelArg) :
+    labelsAfter L (pre ++ .badSet a :: post) = labelsAfter L (pre ++ post) := by
+  induction pre generalizing L with
+  | nil => rfl
+  | cons st pre ih => cases st <;> simp [labelsAfter, ih]
+
+/-- **History theorem with failures.** An assignment the setter rejects (`ValueError`) changes
+    nothing: every later read answers as if the rejected assignment had never been attempted. -/
+theorem dg_history_read_after_rejected (s : DGState) (pre post : List Step) (a : LabelArg) (w : String) :
+    dgRun s (pre ++ .badSet a :: post ++ [.read w])
+      = dgRun s (pre ++ .badSet a :: post) ++ [dgRead s.g (labelsAfter s.labels (pre ++ post)) w] := by
+  rw [dg_history_read, labelsAfter_badSet]
+
+theorem mc_history_read_after_rejected (s : MCState) (h : s.Coherent) (pre post : List Step)
+    (a : LabelArg) (w : String) :
+    mcRun s (pre ++ .badSet a :: post ++ [.read w])
+      = mcRun s (pre ++ .badSet a :: post) ++ [mcRead s.g (labelsAfter s.values (pre ++ post)) w] := by
+  rw [mc_history_read s h, labelsAfter_badSet]
+
+example : dgRun ⟨⟨2, [[1], [0]]⟩, some [3, 4]⟩ [.read "scclab", .badSet ⟨1, 3, false⟩, .read "scclab", .badSet ⟨1, 2, true⟩]
+    = ["3,4", "ERR:ValueError:labels-length", "3,4", "ERR:ValueError:labels-object"] := by decide
+
 
 end QE.C03
